@@ -463,6 +463,10 @@ void CheckNullPointer::nullPointerError(const Token *tok, const std::string &var
     } else if (value->defaultArg) {
         reportError(std::move(errorPath), Severity::warning, "nullPointerDefaultArg", errmsgdefarg, CWE_NULL_POINTER_DEREFERENCE, inconclusive || value->isInconclusive() ? Certainty::inconclusive : Certainty::normal);
     } else {
+        // a value that is not known is reported with severity warning
+        if (!value->isKnown() && !mSettings->severity.isEnabled(Severity::warning) && !mSettings->isPremiumEnabled("nullPointer"))
+            return;
+
         std::string errmsg = std::string(value->isKnown() ? "Null" : "Possible null") + " pointer dereference";
 
         std::string id = "nullPointer";
